@@ -308,7 +308,7 @@ def u_select_strategy(ctx, index):
   r = ip.run(C + ':MetricCache', [])
   ctx.cover('select/returns')
   ok = len(made) == 1
-  ctx.check('C17/MetricCache/constructs_one_cache', z3.BoolVal(ok))
+  ctx.check('aux/MetricCache/constructs_one_cache', z3.BoolVal(ok))
   if not ok:
     return
   got = made[0].info.name if hasattr(made[0], 'info') else None
